@@ -30,6 +30,7 @@ const batchSize = 256
 type engPlan struct {
 	name   string
 	states []int
+	dirty  []int // states in which every tuple is also run through the dirty-stack variant (both patterns)
 }
 
 type tierPlan struct {
@@ -40,15 +41,23 @@ type tierPlan struct {
 func planFor(tier string) tierPlan {
 	all := []int{stFresh, stOpens, stClosedMiddle, stRenumbered, stReaddir}
 	if tier == "thorough" {
-		return tierPlan{5, 3, []engPlan{{"interpreter", all}, {"compiler", all}}}
+		return tierPlan{5, 3, []engPlan{{"interpreter", all, nil}, {"compiler", all, all}}}
 	}
-	return tierPlan{4, 2, []engPlan{{"interpreter", all}, {"compiler", []int{stOpens, stRenumbered}}}}
+	return tierPlan{4, 2, []engPlan{{"interpreter", all, nil}, {"compiler", []int{stOpens, stRenumbered}, []int{stOpens}}}}
 }
 
 type batch struct {
 	eng    string
 	st, fn int
 	lo, hi int
+	dirty  bool
+}
+
+func (b batch) callsPerTuple() int {
+	if b.dirty {
+		return 1 + len(dirtyPatterns)
+	}
+	return 1
 }
 
 type plan struct {
@@ -64,6 +73,10 @@ func buildPlan(tier string) *plan {
 	}
 	for _, e := range pl.tp.engines {
 		for _, st := range e.states {
+			dirty := false
+			for _, d := range e.dirty {
+				dirty = dirty || d == st
+			}
 			for fi := range fnTable {
 				n := len(pl.tup[fi])
 				for lo := 0; lo < n; lo += batchSize {
@@ -71,7 +84,7 @@ func buildPlan(tier string) *plan {
 					if hi > n {
 						hi = n
 					}
-					pl.batches = append(pl.batches, batch{e.name, st, fi, lo, hi})
+					pl.batches = append(pl.batches, batch{e.name, st, fi, lo, hi, dirty})
 				}
 			}
 		}
@@ -106,12 +119,70 @@ type batchRes struct {
 	Harness    string           `json:"h,omitempty"`
 	Skipped    bool             `json:"skipped,omitempty"` // the run's budget was used up before this case started
 	Sample     *sampleRec       `json:"s,omitempty"`
+	Fx         []string         `json:"fx,omitempty"` // per tuple: engine- and worker-independent effect of the clean call
+	DirtyCalls int64            `json:"dc,omitempty"`
+	DirtySame  int64            `json:"ds,omitempty"`
 }
 
 type sampleRec struct {
 	Case    caseID `json:"case"`
 	Outcome string `json:"outcome"`
 	Alloc   uint64 `json:"host_alloc_bytes"`
+}
+
+func (br *batchRes) addViols(c caseID, vs []viol) {
+outer:
+	for _, v := range vs {
+		for _, e := range br.Viols {
+			if e.Sig == v.Sig {
+				e.Count++
+				continue outer
+			}
+		}
+		br.Viols = append(br.Viols, &violRec{v.Sig, v.What, c, 1})
+	}
+}
+
+// runTuple evaluates one tuple: the clean call and, for a dirty batch, the call through the
+// dirty-stack variant with each pattern, which must have exactly the effect of the clean call.
+func (br *batchRes) runTuple(w *world, c caseID, dirty bool) {
+	r := w.runCase(c)
+	br.add(c, r)
+	br.Fx = append(br.Fx, r.fx)
+	if !dirty || r.harness != "" {
+		return
+	}
+	for _, pat := range dirtyPatterns {
+		dc := c
+		dc.Dirty = pat
+		dr := w.runCase(dc)
+		br.N++
+		br.DirtyCalls++
+		if dr.harness != "" {
+			if br.Harness == "" {
+				br.Harness = fmt.Sprintf("%s (case %+v)", dr.harness, dc)
+			}
+			return
+		}
+		if v := w.staleBitsViolation(c, r, dr, pat); v != nil {
+			br.Outcomes[c.Fn+"|dirty-stack:differs-from-clean"]++
+			br.addViols(dc, []viol{*v})
+		} else {
+			br.DirtySame++
+		}
+		// anything the oracle holds against the dirty call alone and not against the clean one
+		var extra []viol
+	next:
+		for _, v := range dr.viols {
+			for _, cv := range r.viols {
+				if cv.Sig == v.Sig {
+					continue next
+				}
+			}
+			extra = append(extra, v)
+		}
+		br.addViols(dc, extra)
+	}
 }
 
 func (br *batchRes) add(c caseID, r caseRes) {
@@ -143,16 +214,7 @@ func (br *batchRes) add(c caseID, r caseRes) {
 	if br.Sample == nil {
 		br.Sample = &sampleRec{c, r.outcome, r.alloc}
 	}
-outer:
-	for _, v := range r.viols {
-		for _, e := range br.Viols {
-			if e.Sig == v.Sig {
-				e.Count++
-				continue outer
-			}
-		}
-		br.Viols = append(br.Viols, &violRec{v.Sig, v.What, c, 1})
-	}
+	br.addViols(c, r.viols)
 }
 
 // ---------------------------------------------------------------- child
@@ -186,21 +248,20 @@ func childMain() {
 				return `{"skipped":true}`
 			}
 			for k := b.lo; k < b.hi; k++ {
-				c := pl.caseOf(b, k)
-				br.add(c, w.runCase(c))
+				br.runTuple(w, pl.caseOf(b, k), b.dirty)
 			}
 			return enc(br)
 		})
 	case "single":
 		pl := buildPlan(os.Getenv("VERIF_C15_TIER"))
-		singles := expandSingles(pl, os.Getenv("VERIF_C15_SINGLES"))
+		singles, keys := expandSingles(pl, os.Getenv("VERIF_C15_SINGLES"))
 		fw.ChildLoop(func(i int) string {
 			c := singles[i]
 			br := &batchRes{}
 			if expired() {
 				return `{"skipped":true}`
 			}
-			br.add(c, w.runCase(c))
+			br.runTuple(w, c, pl.batches[keys[i].bi].dirty)
 			return enc(br)
 		})
 	case "replay":
@@ -210,7 +271,13 @@ func childMain() {
 		}
 		fw.ChildLoop(func(i int) string {
 			br := &batchRes{}
-			br.add(c, w.runCase(c))
+			if pat := c.Dirty; pat != 0 { // a dirty-stack case is judged against the clean call
+				c.Dirty = 0
+				dirtyPatterns = []uint64{pat}
+				br.runTuple(w, c, true)
+			} else {
+				br.runTuple(w, c, false)
+			}
 			return enc(br)
 		})
 	default:
@@ -218,8 +285,11 @@ func childMain() {
 	}
 }
 
-func expandSingles(pl *plan, list string) []caseID {
+type singleKey struct{ bi, k int }
+
+func expandSingles(pl *plan, list string) ([]caseID, []singleKey) {
 	var out []caseID
+	var keys []singleKey
 	for _, s := range strings.Split(list, ",") {
 		if s == "" {
 			continue
@@ -231,9 +301,10 @@ func expandSingles(pl *plan, list string) []caseID {
 		b := pl.batches[bi]
 		for k := b.lo; k < b.hi; k++ {
 			out = append(out, pl.caseOf(b, k))
+			keys = append(keys, singleKey{bi, k - b.lo})
 		}
 	}
-	return out
+	return out, keys
 }
 
 // crashViolation classifies a child that died / hung while executing exactly case c.
@@ -264,10 +335,35 @@ type agg struct {
 	perSlice   map[string]int64            // engine/state -> calls
 	samples    map[int]*sampleRec
 	crashCases int64
+	dirtyCalls int64
+	dirtySame  int64
+	fxID       map[string]uint32
+	fxStr      []string
+	fx         map[int][]uint32 // batch index -> per-tuple effect id (0 = missing)
+}
+
+func (a *agg) intern(s string) uint32 {
+	if id, ok := a.fxID[s]; ok {
+		return id
+	}
+	a.fxStr = append(a.fxStr, s)
+	id := uint32(len(a.fxStr)) // ids start at 1
+	a.fxID[s] = id
+	return id
+}
+
+func (a *agg) setFx(pl *plan, bi, k int, s string) {
+	v := a.fx[bi]
+	if v == nil {
+		v = make([]uint32, pl.batches[bi].hi-pl.batches[bi].lo)
+		a.fx[bi] = v
+	}
+	v[k] = a.intern(s)
 }
 
 func newAgg(run *fw.Run) *agg {
-	return &agg{run: run, outcomes: map[string]int64{}, perFn: map[string]map[string]int64{}, perSlice: map[string]int64{}, samples: map[int]*sampleRec{}}
+	return &agg{run: run, outcomes: map[string]int64{}, perFn: map[string]map[string]int64{}, perSlice: map[string]int64{}, samples: map[int]*sampleRec{},
+		fxID: map[string]uint32{}, fx: map[int][]uint32{}}
 }
 
 func (a *agg) violation(v viol, c caseID, count int64) {
@@ -290,7 +386,12 @@ func fmtArgs(a []uint64) string {
 
 func (a *agg) merge(idx int, slice string, br *batchRes) {
 	a.calls += br.N
-	a.perSlice[slice] += br.N
+	a.perSlice[slice] += br.N - br.DirtyCalls
+	if br.DirtyCalls > 0 {
+		a.perSlice[slice+"/dirty-stack"] += br.DirtyCalls
+	}
+	a.dirtyCalls += br.DirtyCalls
+	a.dirtySame += br.DirtySame
 	a.nontriv += br.Nontriv
 	a.memChanged += br.MemChanged
 	a.lowfree += br.Lowfree
@@ -328,7 +429,7 @@ func main() {
 		pl := buildPlan(os.Args[2])
 		var n int64
 		for _, b := range pl.batches {
-			n += int64(b.hi - b.lo)
+			n += int64(b.hi-b.lo) * int64(b.callsPerTuple())
 		}
 		for fi, f := range fnTable {
 			fmt.Printf("%-26s params=%d tuples/state=%d\n", f.name, len(f.params), len(pl.tup[fi]))
@@ -356,9 +457,11 @@ func main() {
 		workers = 16
 	}
 	a := newAgg(run)
+	cappedRun := false
+	capf := func() { cappedRun = true; run.Capped("budget") }
 	stop := func() bool {
 		if run.Expired() {
-			run.Capped("budget")
+			capf()
 			return true
 		}
 		return false
@@ -382,25 +485,31 @@ func main() {
 			}
 			if br.Skipped {
 				skipped++
-				run.Capped("budget")
+				capf()
 				return
 			}
 			b := pl.batches[i]
+			if len(br.Fx) != b.hi-b.lo {
+				fatal("batch %d: %d effect records for %d tuples", i, len(br.Fx), b.hi-b.lo)
+			}
+			for k, fx := range br.Fx {
+				a.setFx(pl, i, k, fx)
+			}
 			a.merge(i, b.eng+"/"+stateName[b.st], &br)
 		})
 	if doneA < len(pl.batches) {
-		run.Capped("budget")
+		capf()
 	}
 	wallA := time.Since(t0).Seconds()
 
 	// phase B: every call of a batch whose worker died is re-run as its own supervised case
 	sort.Ints(crashed)
-	var singles []caseID
 	var ids []string
 	for _, bi := range crashed {
 		ids = append(ids, strconv.Itoa(bi))
 	}
-	singles = expandSingles(pl, strings.Join(ids, ","))
+	singles, skeys := expandSingles(pl, strings.Join(ids, ","))
+	unrunDirty := int64(0)
 	t1 := time.Now()
 	if len(singles) > 0 {
 		doneB := fw.Supervise(fw.SupOpts{N: len(singles), Workers: workers, CaseTimeout: 60 * time.Second, UlimitVKB: 6 << 20,
@@ -420,6 +529,10 @@ func main() {
 					}
 					a.perFn[c.Fn][oc]++
 					a.violation(crashViolation(c, crash), c, 1)
+					a.setFx(pl, skeys[i].bi, skeys[i].k, oc)
+					if pl.batches[skeys[i].bi].dirty {
+						unrunDirty += int64(len(dirtyPatterns)) // the clean call already kills the worker
+					}
 					return
 				}
 				var br batchRes
@@ -431,22 +544,77 @@ func main() {
 				}
 				if br.Skipped {
 					skipped++
-					run.Capped("budget")
+					capf()
 					return
 				}
+				if len(br.Fx) != 1 {
+					fatal("single %d: %d effect records", i, len(br.Fx))
+				}
+				a.setFx(pl, skeys[i].bi, skeys[i].k, br.Fx[0])
 				a.merge(-1, slice, &br)
 			})
 		if doneB < len(singles) {
-			run.Capped("budget")
+			capf()
 		}
 	}
 	wallB := time.Since(t1).Seconds()
+
+	// ---- engines must agree: the clean call of every tuple the compiler ran has the effect the
+	// interpreter observed for the same tuple in the same state (a dirty-stack call equals its clean
+	// call, checked in the worker, so it equals the interpreter's too).
+	twin := map[[3]int]int{}
+	for i, b := range pl.batches {
+		if b.eng == "interpreter" {
+			twin[[3]int{b.st, b.fn, b.lo}] = i
+		}
+	}
+	var xCompared, xDiffer, xMissing int64
+	for i, b := range pl.batches {
+		if b.eng != "compiler" {
+			continue
+		}
+		ti, ok := twin[[3]int{b.st, b.fn, b.lo}]
+		cf, tf := a.fx[i], a.fx[ti]
+		for k := 0; k < b.hi-b.lo; k++ {
+			if !ok || cf == nil || tf == nil || cf[k] == 0 || tf[k] == 0 {
+				xMissing++
+				continue
+			}
+			xCompared++
+			if cf[k] != tf[k] {
+				xDiffer++
+				c := pl.caseOf(b, b.lo+k)
+				a.violation(viol{c.Fn + ":outcome-differs-between-engines",
+					fmt.Sprintf("compiler: %q, interpreter: %q", a.fxStr[cf[k]-1], a.fxStr[tf[k]-1])}, c, 1)
+			}
+		}
+	}
+	if xMissing > 0 && !cappedRun {
+		fatal("%d tuples without an effect record although the run was not capped", xMissing)
+	}
+
+	// ---- is the dirty-stack variant effective? (harness-owned probe function with nine i32 parameters)
+	probe := map[string]any{}
+	if pw, err := newWorld(filepath.Join(base, "parent")); err != nil {
+		fatal("probe world: %v", err)
+	} else {
+		for _, e := range pl.tp.engines {
+			m, err := pw.probeMasks(e.name)
+			if err != nil {
+				fatal("dirty-stack probe on the %s: %v", e.name, err)
+			}
+			probe[e.name] = m
+			if len(e.dirty) > 0 && (m["pattern_0xffffffffffffffff"] == 0 || m["clean"] != 0) {
+				run.Note("dirty-stack variant is vacuous on the %s: probe masks %v (the trampoline no longer leaves stale upper halves, or the dirtier no longer reaches its slots)", e.name, m)
+			}
+		}
+	}
 	os.RemoveAll(base)
 
 	// ---- evidence
 	var planned int64
 	for _, b := range pl.batches {
-		planned += int64(b.hi - b.lo)
+		planned += int64(b.hi-b.lo) * int64(b.callsPerTuple())
 	}
 	perFn := map[string]any{}
 	var fnNames []string
@@ -486,17 +654,27 @@ func main() {
 	}
 	engs := map[string]any{}
 	for _, e := range pl.tp.engines {
-		var s []string
+		var s, d []string
 		for _, st := range e.states {
 			s = append(s, stateName[st])
 		}
+		for _, st := range e.dirty {
+			d = append(d, stateName[st])
+		}
 		engs[e.name] = s
+		if len(d) > 0 {
+			engs[e.name+"+dirty-stack-variants"] = d
+		}
+	}
+	pats := []string{}
+	for _, p := range dirtyPatterns {
+		pats = append(pats, fmt.Sprintf("%#x", p))
 	}
 	run.Finish(fw.Coverage{
 		Evaluations: a.calls, DistinctNontriv: a.nontriv,
 		Rule: "one evaluation = one WASI call with one argument tuple in one descriptor-table state on one engine, on a fresh module instance (all tuples are distinct by construction); " +
 			"non-trivial = the call succeeded (errno 0), ended in a trap, changed guest memory, changed the descriptor table or killed the worker (everything but a plain error return without effects)",
-		Samples: samples, Exhaustive: a.calls == planned, Outcomes: a.outcomes,
+		Samples: samples, Exhaustive: a.calls+unrunDirty == planned, Outcomes: a.outcomes,
 		Bounds: map[string]any{
 			"functions": len(fnTable), "functions_covered": covered, "guest_memory_bytes": memSize,
 			"full_product_up_to_params": pl.tp.maxFull, "max_deviations_otherwise": pl.tp.maxDev,
@@ -509,12 +687,21 @@ func main() {
 			"max_host_alloc_bytes_in_surviving_call": a.maxAlloc, "max_host_alloc_case": a.maxCase,
 			"batches": len(pl.batches), "cases_skipped_after_budget": skipped, "batches_whose_worker_died": len(crashed), "calls_rerun_one_per_process_slot": len(singles),
 			"calls_that_killed_the_worker": a.crashCases, "phase_wall_s": map[string]float64{"batches": wallA, "singles": wallB},
+			"dirty_stack": map[string]any{
+				"patterns": pats, "dirtier_levels": dirtDepth + 1, "forwarding_functions": 2,
+				"calls": a.dirtyCalls, "same_effect_as_clean_call": a.dirtySame, "differing": a.dirtyCalls - a.dirtySame,
+				"not_run_because_the_clean_call_kills_the_worker": unrunDirty,
+				"probe_upper_half_nonzero_mask_of_9_i32_slots": probe,
+			},
+			"engines_compared": map[string]any{"tuples_compared_compiler_vs_interpreter": xCompared, "differing": xDiffer, "not_compared_capped": xMissing, "distinct_effects": len(a.fxStr)},
 		},
 	}, []string{
 		"the signature table (parameter kinds, output regions) is written from the WASI snapshot-01 documentation and checked against the host module's exported names and parameter types at start-up",
 		"each call runs on a fresh module instance whose memory holds a fixed template; a changed byte whose new value equals the template byte is invisible to the diff",
 		"default ModuleConfig (stdin EOF, fake clocks/sleep, deterministic random source) plus args, one env var and one writable directory mount; no sockets are pre-opened, so sock_* reach only their descriptor checks",
 		"host allocation is the /gc/heap/allocs:bytes delta around the call in a single-goroutine worker; allocations outside the Go heap are covered only by the 6 GiB address-space limit",
+		"effects compared across engines/workers are outcome, touched output regions and descriptor-table changes; changed bytes are compared (by hash) only between the clean and dirty-stack call of one tuple in one worker, and not for fd_filestat_get/path_filestat_get whose bytes carry host inode/atime",
+		"the dirty-stack variant relies on the native stack layout of this compiler (amd64): its effectiveness is measured by a probe host function and reported, not assumed",
 	})
 }
 
